@@ -5,7 +5,7 @@ import c16
 
 PID = "C15"
 PROPS = "props/C15.v"
-GOTAB = ["gf.go"]
+GOTAB = ["gf.go", "code39.go", "code93.go"]
 GOFILES = ["all.go", "gf.go", "purity.go"]
 EXTRACT = ["base", "gf", "gfspec"]
 HANDLERS = ["h_gf.ml"]
@@ -87,6 +87,65 @@ def extra(rep, impl_exe, model_exe, rng, tier):
         viol.append({"kind": "a call returned a different barcode after a history of calls than alone in a fresh process",
                      "call": hist[i], "position_in_history": i, "in_history": in_hist[i], "fresh_process": fresh[hist[i]],
                      "history_file": jf, "replay": "%s < %s | tail -1 ; echo '%s' | %s" % (impl_exe, jf, hist[i], impl_exe)})
+    # (a2) held barcodes: encode many symbols, keep every returned barcode, re-read all of them at the end
+    hjobs = [("hold " + j[4:]) for j in J.jobs(rng, 120 if tier == "quick" else 1200, scale_frac=0.0)]
+    # the same symbology repeatedly with different contents and option mixes, back to back
+    for k in ["c93 1 0", "c93 0 1", "c39 1 1", "tof 0", "tof 1", "codabar", "c128", "ean"]:
+        for i in range(4):
+            if k == "codabar":
+                c = "A%dB" % rng.randrange(10 ** 6)
+            elif k == "ean":
+                c = "%07d" % rng.randrange(10 ** 7)
+            elif k.startswith("tof"):
+                c = "%06d" % rng.randrange(10 ** 6)
+            else:
+                c = "".join(rng.choice("ABCDEFGHIJKLMNOPQRSTUVWXYZ0123456789") for _ in range(rng.randrange(3, 12)))
+            hjobs.append("hold %s %s" % (k, J.hx(c)))
+    rng.shuffle(hjobs)
+    houts = run_lines(impl_exe, hjobs + ["recheck"], shards=1)
+    kept = [o for o in houts[:-1] if o.startswith("OK")]
+    later = houts[-1].split(";") if houts[-1] else []
+    rep.cov["held_barcodes"] = len(kept)
+    if len(later) != len(kept) and kept:
+        viol.append({"kind": "held barcodes could not be re-read", "output": houts[-1][:300]})
+    else:
+        okpos = [i for i, o in enumerate(houts[:-1]) if o.startswith("OK")]
+        for k2, (a, b) in enumerate(zip(kept, later)):
+            if a != b:
+                jf = os.path.join(VERIF, "replays", "C15-held-%d.txt" % rep.seed)
+                os.makedirs(os.path.dirname(jf), exist_ok=True)
+                open(jf, "w").write("\n".join(hjobs + ["recheck"]) + "\n")
+                viol.append({"kind": "a returned barcode changed after later encode calls (not a snapshot)",
+                             "call": hjobs[okpos[k2]], "at_encode_time": a, "after_later_calls": b, "jobs_file": jf,
+                             "replay": "%s < %s | tail -1" % (impl_exe, jf)})
+                break
+    # (a3) determinism: the same call repeated in one process gives the same barcode (map iteration order,
+    # goroutine scheduling): Code 39/93 with check characters for every pair of characters (every check value),
+    # many short QR contents (mask ties), a sample of the other encoders
+    reps = []
+    A93 = "0123456789ABCDEFGHIJKLMNOPQRSTUVWXYZ-. $/+%"
+    step = 3 if tier == "quick" else 1
+    for i, c1 in enumerate(A93):
+        for j, c2 in enumerate(A93):
+            if (i + j) % step == 0:
+                reps.append("rep 6 c93 1 0 %s" % J.hx(c1 + c2))
+    for c1 in A93:
+        reps.append("rep 6 c39 1 0 %s" % J.hx(c1))
+        reps.append("rep 6 c93 1 1 %s" % J.hx(c1.lower()))
+    for _ in range(300 if tier == "quick" else 3000):
+        n = rng.randrange(1, 12)
+        t = rng.choice(["HELLO %d" % rng.randrange(1000), str(rng.randrange(10 ** n)),
+                        "".join(rng.choice(J.ALNUM) for _ in range(n))])
+        reps.append("rep 8 qr %d %d %s" % (rng.randrange(4), rng.choice([0, 0, 1, 2, 3]) if t.isdigit() else rng.choice([0, 0, 2, 3]), J.hx(t)))
+    for j in J.jobs(rng, 60 if tier == "quick" else 600, scale_frac=0.0):
+        reps.append("rep 4 " + j[4:])
+    routs = run_lines(impl_exe, reps, shards=NCPU)
+    rep.cov["determinism_calls"] = len(reps)
+    for l, o in zip(reps, routs):
+        if not o.startswith("SAME"):
+            viol.append({"kind": "the same call does not always return the same barcode (or crashed)", "case": l, "impl_output": o[:400],
+                         "replay": "echo '%s' | %s" % (l, impl_exe)})
+            break
     # (b) aliasing probes
     probes = []
     for _ in range(80 if tier == "quick" else 2000):
